@@ -2,12 +2,17 @@
 """import_seed.py <ID> <variant> "<needs>" — copy a confirmed seeded change into /verif/seeded/<ID>-<variant>/ with meta.json."""
 import json, shutil, sys, re
 from pathlib import Path
-pid, var, needs = sys.argv[1], sys.argv[2], sys.argv[3]
+pid, var = sys.argv[1], sys.argv[2]
+needs = sys.argv[3] if len(sys.argv) > 3 else None
 src = Path(f"/tmp/seed/{pid}-out/{var}")
 dst = Path(f"/verif/seeded/{pid}-{var}")
 dst.mkdir(parents=True, exist_ok=True)
 for f in ("patch.diff", "demo.py", "README.md"):
     shutil.copy(src / f, dst / f)
+if not needs or needs == "see README":
+    txt = (src / "README.md").read_text()
+    mm = re.search(r"(?is)^#+[^\n]*(need|manifest|trigger)[^\n]*\n(.*?)(?=^#+ |\Z)", txt, re.M)
+    needs = re.sub(r"\s+", " ", mm.group(2)).strip()[:700] if mm else re.sub(r"\s+", " ", txt)[:500]
 log = Path(f"/tmp/vseed-{pid}-{var}.log").read_text() if Path(f"/tmp/vseed-{pid}-{var}.log").exists() else ""
 m = re.findall(r"(\d+ passed[^\n]*)", log)
 meta = {
